@@ -40,9 +40,10 @@ func (f BalancerFunc) Balance(msg Message, partitions ...int) int {
 // This can be used to improve batch sizes.
 type RoundRobin struct {
 	ChunkSize int
-	// Use a 32 bits integer so RoundRobin values don't need to be aligned to
-	// apply increments.
-	counter uint32
+	// A 64 bits counter: with 32 bits the counter wrapped after 2^32 messages,
+	// which broke the cycle whenever the number of partitions times ChunkSize
+	// did not divide 2^32.
+	counter uint64
 
 	mutex sync.Mutex
 }
@@ -60,11 +61,11 @@ func (rr *RoundRobin) balance(partitions []int) int {
 		rr.ChunkSize = 1
 	}
 
-	length := len(partitions)
+	length := uint64(len(partitions))
 	counterNow := rr.counter
-	offset := int(counterNow / uint32(rr.ChunkSize))
+	offset := (counterNow / uint64(rr.ChunkSize)) % length
 	rr.counter++
-	return partitions[offset%length]
+	return partitions[offset]
 }
 
 // LeastBytes is a Balancer implementation that routes messages to the partition
